@@ -106,6 +106,8 @@ func newDrvInst(c drvCfg, w *caseWriter, tags map[string]int) *drvInst {
 	d := &drvInst{cfg: c, w: w, tags: tags, t0: time.Now()}
 	d.src = newSimSource(nil)
 	d.snk = newSimSink(nil)
+	// every write takes a while to return: the RTT counts from handing the probe to the network, not from the return
+	d.snk.writeDelay = 1700 * time.Microsecond
 	tp := common.TracerouteParams{MinTTL: uint8(c.first), MaxTTL: uint8(c.last), TracerouteTimeout: time.Second, PollFrequency: 10 * time.Millisecond, SendDelay: time.Millisecond}
 	switch c.variant {
 	case vIcmp, vUdp:
